@@ -13,9 +13,20 @@ RULE = (
     'enqueued before the child, clause b: after). Non-trivial = at await-begin at least one unrelated event was queued '
     'on some bus; distinct by canonical JSON.'
 )
-ASSUMPTIONS = ['virtual time; completion instant observed by the harness at every trace record', 'serial buses only; no timeouts']
+ASSUMPTIONS = ['virtual time; completion instant observed by the harness at every trace record', 'serial buses only', 'asynchronous clean-up of a cancelled handler is handler activity of its event: clean-up records of an unrelated event inside an await window count as a violation']
 
-P = Profile(par=0.0, preload=4, watch=True, actor_ops=['disp', 'burst', 'dispany', 'sleep', 'await', 'yield'], maxdepth=[2, 3], wild=0.1, fwd=0.25, modes=['await', 'await', 'await', 'later', 'ff'], raises=0.05, warm=[True, False, False])
+from hypothesis import strategies as _st
+
+
+@_st.composite
+def _timeouts(draw):
+    # a quarter of the scenarios: unrelated handlers get cut off by event timeouts and need time to unwind meanwhile
+    if draw(_st.integers(0, 3)) != 0:
+        return {}
+    return {str(t): draw(_st.sampled_from([0.13, 0.27, 0.41])) for t in range(4) if draw(_st.booleans())}
+
+
+P = Profile(timeouts=_timeouts(), cleanup=0.3, par=0.0, preload=4, watch=True, actor_ops=['disp', 'burst', 'dispany', 'sleep', 'await', 'yield'], maxdepth=[2, 3], wild=0.1, fwd=0.25, modes=['await', 'await', 'await', 'later', 'ff'], raises=0.05, warm=[True, False, False])
 
 
 def budget(tier):
